@@ -101,12 +101,12 @@ func (c *clientApp) setDefaults() (err error) {
 	}
 	var defaultTag *sts.TagConf
 	for _, tag := range c.conf.Tags {
-		if tag.Pattern == nil {
-			defaultTag = tag
-			break
-		}
+		// The default applies to every tag: the default tag usually comes first
 		if tag.Method == "" {
 			tag.Method = sts.MethodHTTP
+		}
+		if tag.Pattern == nil && defaultTag == nil {
+			defaultTag = tag
 		}
 	}
 	if defaultTag == nil {
